@@ -323,6 +323,60 @@ def run_update_secrets(ctx):
                               "an update naming %s client secret was %s" % ("a look-alike of the issued" if secret != "sec1" else "the issued", "stored" if got[0] == "stored" else "refused"), case)
 
 
+def run_statement_algs(ctx):
+    """Which algorithms a software statement may be signed with is each registration endpoint's own, current setting: an endpoint
+    class that allows fewer than another one used before it (or whose list was tightened since) refuses what it does not allow."""
+    from authlib.jose import jwt as _jwt
+    from authlib.oauth2.rfc7591 import ClientRegistrationEndpoint
+    from impl import oauth2_server as S
+
+    def make(algs):
+        class Reg(ClientRegistrationEndpoint):
+            software_statement_alg_values_supported = list(algs)
+
+            def authenticate_token(self, request):
+                return True
+
+            def get_server_metadata(self):
+                return {}
+
+            def save_client(self, client_info, client_metadata, request):
+                self.server.store.saved.append(dict(client_metadata))
+                return object()
+
+            def resolve_public_key(self, request):
+                return STATEMENT_KEY
+        return Reg
+
+    def register(cls_or_endpoint, alg):
+        store = S.Store()
+        store.saved = []
+        srv = S.Server(store)
+        srv.register_endpoint(cls_or_endpoint)
+        key = STATEMENT_KEY
+        body = {"redirect_uris": ["https://c.example/x"], "software_statement": _jwt.encode({"alg": alg}, {"software_id": "s1"}, key).decode()}
+        st, b, _ = srv.create_endpoint_response("client_registration", S.HReq("POST", "https://as.example/register", None, {}, json.dumps(body)))
+        return "stored" if store.saved else "refused:%s" % (b.get("error") if isinstance(b, dict) else st)
+    Wide = make(["HS512", "HS256"])
+    Narrow = type("Narrow", (Wide,), {"software_statement_alg_values_supported": ["HS512"]})
+    steps = [("wide", Wide, "HS256", True), ("narrow-subclass", Narrow, "HS256", False), ("narrow-subclass", Narrow, "HS512", True), ("wide", Wide, "HS256", True)]
+    Tight = make(["HS256", "HS512"])
+    steps += [("before-tightening", Tight, "HS256", True), ("tighten", None, None, None), ("after-tightening", Tight, "HS256", False), ("after-tightening", Tight, "HS512", True)]
+    for i, (lab, cls, alg, want) in enumerate(steps):
+        if cls is None:
+            Tight.software_statement_alg_values_supported = ["HS512"]
+            continue
+        try:
+            got = register(cls, alg)
+        except Exception as e:  # noqa: BLE001
+            got = "escapes:%s" % type(e).__name__
+        case = {"statement_algs": lab, "step": i, "alg": alg, "allowed_now": list(cls.software_statement_alg_values_supported)}
+        ctx.case(case, ("statement-algs", i), "statement-algs:%s" % got.split(":")[0])
+        if (got == "stored") != want:
+            ctx.violation("C18:software-statement-alg:%s" % ("accepted" if got == "stored" else "refused"),
+                          "a software statement signed with %s was %s by an endpoint whose current allow-list is %r" % (alg, got, case["allowed_now"]), case)
+
+
 def run_registration(ctx):
     from impl import oauth2_server as S
     m = ctx.model
@@ -490,6 +544,7 @@ def run(ctx):
     run_metadata(ctx)
     run_registration(ctx)
     run_update_secrets(ctx)
+    run_statement_algs(ctx)
 
 
 def run_case(ctx, case):
